@@ -74,6 +74,24 @@ Theorem timed_bound :
 Proof. exact timed_bound_lemma. Qed.
 Print Assumptions timed_bound.
 
+(* Sharper, for what [do_call] actually is — the call's thread running alone, nobody else moving
+   (the one-call-at-a-time use of the correspondence cases): at most ONE of the two stages waits
+   (a thread lock that is available is taken at once; one that is not stays unavailable until the
+   timeout), so the whole call stays within its timeout plus one poll interval.  This is the bound
+   the C12 monitor's time clause checks on the implementation (Case_C12.time_ok). *)
+Theorem timed_bound_alone :
+  forall ocfg tcfg fl evs t o m blk tm poll skip fuel T,
+    let s0 := run (init_cfg ocfg tcfg fl) evs in
+    viol s0 = false ->
+    t_pc (thr s0 t) = PIdle -> dead s0 (t_proc (thr s0 t)) = false ->
+    o_proc (objs s0 o) = t_proc (thr s0 t) ->
+    let s' := fst (do_call fuel s0 t (CAcq o m blk tm poll skip)) in
+    let r := snd (do_call fuel s0 t (CAcq o m blk tm poll skip)) in
+    snd (normalise (objs s0 o) blk tm) = TVal T -> r <> ROutOfFuel ->
+    (now s' <= now s0 + T + poll)%N /\ r <> RWouldBlock.
+Proof. exact timed_bound_alone_lemma. Qed.
+Print Assumptions timed_bound_alone.
+
 (* A release that gives the OS lock up (outermost level or force) under EVERY fault
    script — unlock and/or close may raise — still ends normally with: no descriptor
    recorded, counter 0, the descriptor closed, the kernel lock not held through it,
@@ -232,7 +250,7 @@ Print Assumptions monitor_complete.
    [conforms] to the abstract Lock/RLock spec along the observed call sequence: every result is
    the spec's result; after every call is_locked of every object, the number of open
    descriptors (1 iff held) and the "who could acquire now" probes are those of the spec's
-   state; a non-blocking acquire took no time, a timed one at most T + T + poll, a release
+   state; a non-blocking acquire took no time, a timed one at most T + poll, a release
    none (FLockSound.v; the model FLock.v is not mentioned). *)
 Theorem monitor_sound :
   forall nT cfg fl ops observed km,
